@@ -95,6 +95,47 @@ func (f FoldArr) ModelV() val.V {
 	return out
 }
 
+// FoldTags is a named slice type with its own Fold method (the generic
+// fast path for []string must not win over it).
+type FoldTags []string
+
+func (f FoldTags) Fold(v structform.ExtVisitor) error {
+	s := "tags:"
+	for _, t := range f {
+		s += t + ";"
+	}
+	return v.OnString(s)
+}
+func (f FoldTags) ModelV() val.V {
+	s := "tags:"
+	for _, t := range f {
+		s += t + ";"
+	}
+	return val.VStr(s)
+}
+
+// FoldLabels is a named map type with its own Fold method.
+type FoldLabels map[string]string
+
+func (f FoldLabels) Fold(v structform.ExtVisitor) error { return v.OnInt(len(f)) }
+func (f FoldLabels) ModelV() val.V                      { return val.VInt(int64(len(f))) }
+
+// FoldNum is a named scalar with its own Fold method.
+type FoldNum int
+
+func (f FoldNum) Fold(v structform.ExtVisitor) error { return v.OnString("num") }
+func (f FoldNum) ModelV() val.V                      { return val.VStr("num") }
+
+type WithNamedFolders struct {
+	T  FoldTags
+	L  FoldLabels `struct:"l,omitempty"`
+	N  FoldNum
+	I  interface{}
+	S  []interface{}
+	M  map[string]interface{}
+	PT *FoldTags
+}
+
 // ZeroVal implements IsZeroer with a value receiver.
 type ZeroVal struct{ N int }
 
@@ -138,7 +179,7 @@ type WithFolders struct {
 	V  FoldVal
 	P  FoldPtr
 	PP *FoldPtr
-	A  FoldArr  `struct:"arr"`
+	A  FoldArr `struct:"arr"`
 	L  []FoldVal
 	M  map[string]FoldVal
 	I  interface{}
@@ -203,6 +244,15 @@ var Supported = []reflect.Type{
 var FoldOnly = []reflect.Type{
 	reflect.TypeOf(FoldVal{}), reflect.TypeOf(FoldPtr{}), reflect.TypeOf(&FoldPtr{}), reflect.TypeOf(FoldArr{}), reflect.TypeOf(WithFolders{}),
 	reflect.TypeOf(InlineFolder{}), reflect.TypeOf(InlinePtr{}), reflect.TypeOf(InlineMap{}), reflect.TypeOf(InlineIface{}),
+	reflect.TypeOf(FoldTags{}), reflect.TypeOf(FoldLabels{}), reflect.TypeOf(FoldNum(0)), reflect.TypeOf(WithNamedFolders{}),
+	reflect.TypeOf([]interface{}{}), reflect.TypeOf(map[string]interface{}{}),
+}
+
+// FolderValues are dynamic types with custom Fold methods for interface{}
+// positions.
+var FolderValues = []reflect.Type{
+	reflect.TypeOf(FoldVal{}), reflect.TypeOf(&FoldPtr{}), reflect.TypeOf(FoldArr{}), reflect.TypeOf(FoldTags{}), reflect.TypeOf(FoldLabels{}), reflect.TypeOf(FoldNum(0)),
+	reflect.TypeOf(&FoldTags{}),
 }
 
 // Recursive lists self-referential types.
